@@ -4,6 +4,7 @@ pub mod c01;
 pub mod c01_mmap;
 pub mod c02;
 pub mod c02_producers;
+pub mod c02_shared;
 pub mod c03;
 pub mod c04;
 pub mod c05;
